@@ -76,6 +76,13 @@ CLAIMED.update({
                   "and every assignment / WHERE expression is evaluated over an element of the locked partition, never over a batch rebuilt by the same "
                   "statement (assignments see the pre-update row). Reported counts, NULL handling of the mask and written values are not decided."),
     },
+    "C46": {
+        "technique": "static analysis: ordered-trace path exploration over MIR (A2) of the placeholder lookup chain (explicit map, environment callback, default capture group)",
+        "level": ("Static, every path of the lookup function and of its two consumers in the benchmark runner (found by resolved callees): the environment is "
+                  "consulted only after the explicit map answered None, a map hit is returned as is, and the `:-default` value is used only where the lookup "
+                  "answered None (in Option combinators the lookup is the receiver). Decides the precedence clause only; validation of persisted results "
+                  "(CSV text round trip, cell comparison) is value-level and not decided."),
+    },
     "C47": {
         "technique": "static analysis: exhaustive table extraction from MIR; symmetry + integer-range containment; one-sided match-arm detection",
         "level": ("Static, exhaustive: numerical_coercion over all 121 ordered pairs of integer/float types is symmetric and, for "
@@ -380,7 +387,6 @@ NA = {
     'C41': 'equality of query results after value substitution; placeholder type inference is data-type computation',
     'C44': 'value-level casting/reordering of columns over all schema pairs',
     'C45': 'behavioural equality through function-pointer tables; the only structural angle would be a name-matching heuristic (brittle proxy)',
-    'C46': 'CSV text round trip and cell comparison over all result sets; string/value-level',
     'C48': 'result equality between two plan builders over all operation chains',
     'C51': 'character-level scanning/quoting over all input strings',
     'C52': 'character-level quoting/parsing over all identifiers; a string-function inverse property',
